@@ -556,6 +556,61 @@ var pool = []comp{
 
 var suffixes = []string{"", ".alt", ".", ".a.b", ".sc_A", ".notdef"}
 
+// ownershipBody: what ToUnicode returns belongs to the caller.  Every list entry
+// (alone, as first component of a composite, and with a suffix) is looked up,
+// the result is overwritten and extended in place — also into spare capacity —,
+// a composite starting with the same entry is looked up, and then the first
+// look-up is repeated: it must still give the listed text.
+var ownershipShapes = []string{"%s", "%s_A", "%s.alt", "%s_%s"}
+
+func ownershipBody(c *mc.Ctx, item int) mc.Verdict {
+	ng, nd := len(tab.Glyph), len(tab.Dingbats)
+	shape := ownershipShapes[item%len(ownershipShapes)]
+	k := item / len(ownershipShapes)
+	ding := k >= ng
+	e := aglref.Entry{}
+	if k < ng {
+		e = tab.Glyph[k]
+	} else {
+		e = tab.Dingbats[k-ng]
+	}
+	_ = nd
+	name := strings.ReplaceAll(shape, "%s", e.Name)
+	const key = "C16:result-shared-with-internal-table"
+	tolerated := strings.Contains(name, "commaaccent")
+	ask := func(when string) ([]rune, *mc.Verdict) {
+		got := names.ToUnicode(name, ding)
+		c.Step()
+		if want := tab.ToText(name, ding); !slices.Equal(got, want) && !tolerated {
+			v := mc.Fail(key, fmt.Sprintf("ToUnicode(%q, %v) %s = %s, the lists say %s", name, ding, when, hexs(got), hexs(want)))
+			return nil, &v
+		}
+		return got, nil
+	}
+	r1, bad := ask("(first look-up)")
+	if bad != nil {
+		return *bad
+	}
+	keep := slices.Clone(r1)
+	for i := range r1 {
+		r1[i] = 0xFFFD
+	}
+	if cap(r1) > len(r1) {
+		r1[:cap(r1)][len(r1)] = 'X'
+	}
+	_ = append(r1, 'Y', 'Z')
+	names.ToUnicode(e.Name+"_B_C", ding)
+	names.ToUnicode(e.Name+"_"+e.Name, ding)
+	r2, bad := ask("after the caller overwrote an earlier result")
+	if bad != nil {
+		return *bad
+	}
+	if !slices.Equal(r2, keep) {
+		return mc.Fail(key, fmt.Sprintf("ToUnicode(%q, %v) gave %s, and %s after the caller overwrote the first result", name, ding, hexs(keep), hexs(r2)))
+	}
+	return mc.Pass("result-owned-by-caller", len(keep) > 0)
+}
+
 func compositeCount(maxLen int) int {
 	n, p := 0, 1
 	for l := 1; l <= maxLen; l++ {
@@ -774,6 +829,14 @@ func main() {
 					Rule:     fmt.Sprintf("item = every entry of glyphlist.txt (%d, of which %d list several code points) and zapfdingbats.txt (%d), each with dingbats=false and =true, compared with the listed text (where the list applies) and aglref; every entry of aglfn.txt (%d): ToUnicode(name) = listed UV and FromUnicode(UV) round-trips; non-trivial = library returned non-empty text", ng, multi, nd, nf),
 					Describe: func(i int) string { return fmt.Sprintf("table item %d", i) },
 					CrashKey: func(int) string { return "C16:crash:table-entries" },
+				},
+				{
+					Name:     "results-owned-by-caller",
+					Items:    (ng + nd) * len(ownershipShapes),
+					Body:     ownershipBody,
+					Rule:     fmt.Sprintf("item = every entry of glyphlist.txt (%d) and zapfdingbats.txt (%d) x name shape {entry, entry_A, entry.alt, entry_entry}: look the name up, overwrite the returned slice in place (every element, the first slot of spare capacity, an append), look up two composites that start with the entry, look the name up again: both look-ups must give the listed text; non-trivial = non-empty text", ng, nd),
+					Describe: func(i int) string { return fmt.Sprintf("ownership item %d", i) },
+					CrashKey: func(int) string { return "C16:crash:ownership" },
 				},
 				{
 					Name:     "uni-forms",
